@@ -7,3 +7,6 @@ PAIRS = [
     P("destroy", "h_destroy", "mi_heap_destroy", ["_mi_heap_destroy_pages", "mi_heap_free/c_heap_free_rec", "mi_heap_delete/c_heap_delete_rec"]),
     P("heap_free", "h_heap_free", "mi_heap_free", ["_mi_heap_set_default_direct", "mi_free", "mi_prim_get_default_heap"], label="B", K=2),
 ]
+import rg_common
+G = rg_common.pairs()
+PAIRS += [G["queue_append"], G["free_block_delayed_mt"]]
